@@ -39,6 +39,14 @@ def configs(tier, seed):
                     masks = [m for m in masks if keep is None and (hash(m) + seed) % 3 == 0 or keep is not None and ''.join(m) in keep]
                 for m in masks:
                     out.append(dict(biort=b, qshift=q, J=J, H=h, W=w, B=1, C=1, mask=''.join(m)))
+    # absence masks in other layouts of the band-pass tensors; absent lowpass over three and four levels on sizes whose
+    # intermediate lowpass needs the one-sample border
+    for (o, ri) in ((1, 5), (0, 1), (4, 2), (2, 0), (-2, 1)):
+        for m in ('NPP', 'EPP', 'PNP', 'NNP'):
+            out.append(dict(biort='near_sym_a', qshift='qshift_a', J=2, H=8, W=8, B=2, C=3, mask=m, o=o, ri=ri))
+    for (h, w, J) in (((20, 32, 3), (12, 24, 3)) if tier == 'quick' else ((20, 32, 3), (12, 24, 3), (24, 40, 4))):
+        for m in (('N' + 'P' * J,) if tier == 'quick' else ('N' + 'P' * J, 'E' + 'P' * J)):
+            out.append(dict(biort='near_sym_a', qshift='qshift_a', J=J, H=h, W=w, B=1, C=1, mask=m))
     for ctx in ('nograd', 'transposed', 'reqgrad'):      # (channels-last pyramids: the shim's memory-format model of stack()/conv outputs is not validated for 6-D band tensors)
         out.append(dict(biort='near_sym_a', qshift='qshift_a', J=2, H=6, W=8, B=1, C=2, ctx=ctx))
         out.append(dict(biort='near_sym_a', qshift='qshift_a', J=2, H=8, W=8, B=1, C=1, mask='PNP', ctx=ctx))
@@ -60,9 +68,15 @@ def case(cfg):
     mask = cfg.get('mask')
 
     def impl(pw, ts):
-        inv = pw.DTCWTInverse(biort=cfg['biort'], qshift=cfg['qshift'])
+        kw = {}
+        if 'o' in cfg:
+            kw = dict(o_dim=cfg['o'], ri_dim=cfg['ri'])
+        inv = pw.DTCWTInverse(biort=cfg['biort'], qshift=cfg['qshift'], **kw)
         tt = symtorch.shim() if pw is symtorch.sym() else symtorch.real_torch()
         args = list(ts)
+        if 'o' in cfg:
+            # the same pyramid handed over in another documented layout of the band-pass tensors
+            args = [args[0]] + [h.movedim((2, 5), (cfg['o'] % 6, cfg['ri'] % 6)).contiguous() for h in args[1:]]
         if mask:
             args = [a if m == 'P' else _absent(tt, m) for a, m in zip(args, mask)]
         return [('rec', D.call_ctx(pw, cfg, lambda a: inv((a[0], a[1:])), args))]
